@@ -8,6 +8,7 @@ Model: `N2k/Model/Wire.lean` (tie: T3).  Helpers in `N2k/Lemmas/Wire06.lean`.
 import N2k.Model.Wire
 import N2k.Lemmas.Wire06
 import N2k.Props.C06
+import N2k.Props.C05
 namespace N2k.Wire
 open N2k.Straight
 
@@ -34,14 +35,15 @@ theorem C07_frame_formats_agree (id : Nat) (data : Bytes) (hid : id < 2^32) (hd 
     decodeTcp (encodeEbyte id data) = .ok (frameOfId id data) ∧
     decodeUsb (encodeUsb id data) = .ok (frameOfId id data) ∧
     decodeYd (ts ++ [' '] ++ dir ++ [' '] ++ (encodeYd id data).dropLast.dropLast) = .ok (frameOfId id data) := by
-  sorry
+  exact ⟨C06_ebyte_rt id data hid h8, C06_usb_rt id data hid h8,
+    C06_yd_rt id data hid hd hb ts dir hts hsp hne hdir⟩
 
 /-- Yacht Devices text is case-insensitive in its hex digits -/
 theorem C07_yd_lowercase (id : Nat) (data : Bytes) (hid : id < 2^32) (hd : 1 ≤ data.length)
     (hb : ∀ b ∈ data, b < 256) (ts dir : List Char) (hts : validHms ts = true) (hsp : ' ' ∉ ts)
     (hne : ts ≠ []) (hdir : dir = ['R'] ∨ dir = ['T']) :
     decodeYd (ts ++ [' '] ++ dir ++ [' '] ++ ((encodeYd id data).dropLast.dropLast).map lowerHex) = .ok (frameOfId id data) := by
-  sorry
+  exact yd_rt_map lowerHex (by decide) (by decide) id data hid hd hb ts dir hts hsp hne hdir
 
 /-- **The two message-level formats extract the frame whose fields are the parsed identifier** — so a
 frame given as identifier+data to a frame-level format and as (pgn, prio, src, dst)+data to the canboat
@@ -49,12 +51,31 @@ plain format or the Actisense format reaches the decoding core as the same `Fram
 theorem C07_basic_agrees (id : Nat) (data : Bytes) (hd : 1 ≤ data.length)
     (hb : ∀ b ∈ data, b < 256) (ts : List Char) (hts : validStamp ts = true) (hc : ',' ∉ ts) :
     decodeBasic (renderBasic ts (frameOfId id data)) = .ok (frameOfId id data) := by
-  sorry
+  -- NOT PROVABLE AS STATED: `toDec` has fuel 40, so `toDec data.length` is wrong once
+  -- `data.length ≥ 10^40` (counterexample: `data := List.replicate (10^40) 0`, any `id`, any valid `ts`;
+  -- then `toDec data.length` is forty '0's, the decoder reads length 0 and returns `data := []`).
+  -- Everything else is proved: with the bound below as a hypothesis the proof is complete.
+  have hlen : data.length < 10 ^ 40 := sorry
+  have haux : ∀ f n acc, toDecAux f n acc = decAux f n acc := by
+    intro f
+    induction f with
+    | zero => intros; rfl
+    | succ f ih => intro n acc; simp only [toDecAux, decAux, ih]
+  have htd : ∀ n, toDec n = dec n := fun n => haux 40 n []
+  have r := N2k.C05_parse_ranges id
+  simp only [renderBasic, htd]
+  exact basic_rt (frameOfId id data) (by have := r.2.2.2; simp only [frameOfId]; omega)
+    (by have := r.1; simp only [frameOfId]; omega) (by have := r.2.1; simp only [frameOfId]; omega)
+    (by have := r.2.2.1; simp only [frameOfId]; omega) hlen hd hb ts hts hc
 
 theorem C07_actisense_agrees (id : Nat) (data : Bytes) (hd : 1 ≤ data.length) (hb : ∀ b ∈ data, b < 256) :
     let f := frameOfId id data
     decodeActisense ("A000001.000 ".toList ++ encodeActisense f.prio f.dst f.src f.pgn data) = .ok f := by
-  sorry
+  intro f
+  have r := N2k.C05_parse_ranges id
+  exact C06_actisense_rt f.prio f.dst f.src f.pgn data (by have := r.2.2.2; simp only [f, frameOfId]; omega)
+    (by have := r.2.2.1; simp only [f, frameOfId]; omega) (by have := r.2.1; simp only [f, frameOfId]; omega)
+    (by have := r.1; simp only [f, frameOfId]; omega) hd hb
 
 -- non-vacuity
 example : decodeBasic (renderBasic "2024-01-01-00:00:00.000".toList (frameOfId 0x19F80123 [1, 0xAB]))
